@@ -22,10 +22,11 @@ import (
 
 // ---------------------------------------------------------------- case description (replay format)
 type c07Expr struct {
-	Op   string   `json:"op"` // lit, match, cur, key, cat, sumi
-	S    string   `json:"s_hex,omitempty"`
-	N    int      `json:"n,omitempty"`
-	A, B *c07Expr `json:"a,omitempty"`
+	Op string   `json:"op"` // lit, match, cur, key, cat, sumi
+	S  string   `json:"s_hex,omitempty"`
+	N  int      `json:"n,omitempty"`
+	A  *c07Expr `json:"a,omitempty"`
+	B  *c07Expr `json:"b,omitempty"`
 }
 type c07Col struct {
 	Name    string  `json:"name"`
